@@ -390,6 +390,17 @@ def erg_expr(e):
         return f"{e[1]}(" + ", ".join(erg_expr(x) for x in e[2]) + ")"
     if k == "interp":
         return '"' + e[1] + "\\{" + erg_expr(e[2]) + "}" + e[3] + '"'
+    # list operations with dependent signatures (used by checks/c34.py; never produced by Gen itself)
+    if k == "push":
+        return f"{erg_expr(e[1])}.push({erg_expr(e[2])})"
+    if k == "concatm":
+        return f"{erg_expr(e[1])}.concat({erg_expr(e[2])})"
+    if k == "repeat":
+        return f"({erg_expr(e[1])} * {e[2]})"
+    if k == "reversed":
+        return f"{erg_expr(e[1])}.reversed()"
+    if k == "maplist":
+        return f"list({erg_expr(e[1])}.map(({e[2]}) -> {erg_top(e[3])}))"
     raise ValueError(e)
 
 
@@ -478,6 +489,16 @@ def py_expr(e):
         return f"{e[1]}(" + ", ".join(py_expr(x) for x in e[2]) + ")"
     if k == "interp":
         return '("' + e[1] + '" + str(' + py_expr(e[2]) + ') + "' + e[3] + '")'
+    if k == "push":
+        return f"({py_expr(e[1])} + [{py_expr(e[2])}])"
+    if k == "concatm":
+        return f"({py_expr(e[1])} + {py_expr(e[2])})"
+    if k == "repeat":
+        return f"({py_expr(e[1])} * {e[2]})"
+    if k == "reversed":
+        return f"list(reversed({py_expr(e[1])}))"
+    if k == "maplist":
+        return f"[(lambda {e[2]}: {py_expr(e[3])})(_x) for _x in {py_expr(e[1])}]"
     raise ValueError(e)
 
 
@@ -527,7 +548,8 @@ def to_python(prog):
 def tree_features(prog):
     """structural features computed from the finished tree (used to attribute mismatches to recorded findings precisely):
        enum-minus : a `-` whose left operand is an if-expression over Nat branches, or a variable defined by one
-                    (static type: an enum of naturals such as {2, 3})"""
+                    (static type: an enum of naturals such as {2, 3})
+       enum-div   : the same for `/`"""
     feats = set()
     enum_vars = set()
 
@@ -543,6 +565,8 @@ def tree_features(prog):
             return
         if e[0] == "bin" and e[1] == "-" and is_enum_nat(e[2]):
             feats.add("enum-minus")
+        if e[0] == "bin" and e[1] == "/" and is_enum_nat(e[2]):
+            feats.add("enum-div")
         for x in e[1:]:
             if isinstance(x, tuple):
                 walk(x)
